@@ -717,6 +717,18 @@ def build_case(group, cfg, box, seed, ai):
         seen.add(k)
         hostile.append({"gi": gi, "name": name, "cls": name_class(name), "prefix": ("dot%d%s+" % (spec["lead"], "x" if len(spec.get("lsep", "")) > 1 else "") if spec.get("lead") else "") + spec["prefix"],
                         "sep": spec["sep"], "up": up_depth(name), "in": "base"})
+    # ghosts (after C11-r7m3): up to three names of the same hostile shapes that no archive holds - asked for on the command line
+    # (explicit runs) and / or listed by the listfiles without an entry behind them. A name the tool cannot read is still a
+    # name it must not follow out of the output directory (error paths clean up, too).
+    ghosts = []
+    for h in hostile[:6:2]:
+        leaf = "h%d.txt" % h["gi"]
+        if h["name"].endswith(leaf):
+            cand = h["name"][:-len(leaf)] + "g%d.txt" % h["gi"]
+            if contained(cand, box) and listable(cand) and fold_key(cand) not in seen:
+                seen.add(fold_key(cand))
+                ghosts.append(dict(h, name=cand, cls=name_class(cand), up=up_depth(cand), **{"in": "nowhere"}))
+    ghost_listed = [g["name"] for g in ghosts] if ai % 3 != 2 else []
     version = rng.choice((1, 2))
     lead = [b[0] for b in BENIGN if b[1] == "lead"]
     trail = [b[0] for b in BENIGN if b[1] == "trail"]
@@ -727,7 +739,7 @@ def build_case(group, cfg, box, seed, ai):
         data = content_for(n, "base", seed)
         expect[n] = data
         files.append(refmpq.RefFile(n, data, method=rng.choice((0, 2))))
-    arc, _ = refmpq.write_archive(files, version=version, listfile=True, listfile_names=order)
+    arc, _ = refmpq.write_archive(files, version=version, listfile=True, listfile_names=order + ghost_listed)
     base_path = os.path.join(box["in"], "base.mpq")
     with open(base_path, "wb") as f:
         f.write(arc)
@@ -754,7 +766,7 @@ def build_case(group, cfg, box, seed, ai):
             data = content_for(n, "patch", seed)
             expect[n] = data
             pfiles.append(refmpq.RefFile(n, data, method=rng.choice((0, 2))))
-        parc, _ = refmpq.write_archive(pfiles, version=rng.choice((1, 2)), listfile=True, listfile_names=pn)
+        parc, _ = refmpq.write_archive(pfiles, version=rng.choice((1, 2)), listfile=True, listfile_names=pn + ghost_listed[:1])
         patch_path = os.path.join(box["in"], "patch.mpq")
         with open(patch_path, "wb") as f:
             f.write(parc)
@@ -775,13 +787,15 @@ def build_case(group, cfg, box, seed, ai):
         names = lead + [h["name"] for h in hostile if h["in"] == "base" or cfg["chain"]] + trail
         if cfg["chain"]:
             names = ["!p0\\patch only.txt"] + names
+        names = names + [g["name"] for g in ghosts]
         args += ["--"] + names
         tool_order = names
     elif cfg["chain"]:
         tool_order = sorted(set(order) | set(expect), key=lambda s: s.encode("utf-8", "surrogateescape"))
     else:
         tool_order = order
-    return {"hostile": hostile, "dropped": dropped, "args": args, "expect": expect, "benign": benign, "lead": lead + (["!p0\\patch only.txt"] if cfg["chain"] else []),
+    hostile = hostile + ghosts
+    return {"hostile": hostile, "dropped": dropped, "ghosts": [g["name"] for g in ghosts], "args": args, "expect": expect, "benign": benign, "lead": lead + (["!p0\\patch only.txt"] if cfg["chain"] else []),
             "tool_order": tool_order, "out_arg": out_arg, "version": version}
 
 
@@ -818,6 +832,20 @@ def run_case(cli, ai, group, cfg, scratch, seed, keep=False):
         env = {"PATH": os.environ.get("PATH", "/usr/bin:/bin"), "HOME": box["home"], "XDG_CONFIG_HOME": box["home"] + "/.config", "XDG_CACHE_HOME": box["home"] + "/.cache",
                "XDG_DATA_HOME": box["home"] + "/.local/share", "XDG_STATE_HOME": box["home"] + "/.local/state", "TMPDIR": box["tmp"], "RUST_BACKTRACE": "0", "NO_COLOR": "1",
                "LANG": "C.UTF-8"}
+        # victims (after C11-r7m3): in every other run a file already stands where a hostile name would lead if it were followed
+        # with its directories kept; whatever the tool does to it (overwrite, truncate, remove, rename) shows in both observers
+        if ai % 2 == 1:
+            for h in case["hostile"]:
+                tgt = expected_target(h["name"], box, True)
+                if under(tgt, outer) and not under(tgt, box["out"]) and tgt != box["out"] and not os.path.lexists(tgt):
+                    try:
+                        os.makedirs(os.path.dirname(tgt), exist_ok=True)
+                        with open(tgt, "wb") as f:
+                            f.write(b"victim of " + h["name"].encode("utf-8", "surrogateescape"))
+                        cnt["victim_files_planted_outside_out"] = cnt.get("victim_files_planted_outside_out", 0) + 1
+                    except OSError:
+                        pass
+        cnt["ghost_names"] = len(case.get("ghosts", []))
         before = snapshot(outer)
         cmd = ["strace", "-ff", "-y", "-s", "16384", "-e", "trace=" + ",".join(TRACE), "-o", os.path.join(logdir, "t"), cli] + case["args"]
         try:
